@@ -20,6 +20,7 @@ CREDS = [
     ("u", "tok.en-123", "\xe9"),
     ("Bearer", "Bearer abc", "n,a=x"),  # credentials that look like pieces of the mechanisms' own framing
     ("user", "auth=Bearer x\x01", ""),
+    ("user", "pass", "user"),  # authorisation id given and equal to the login: still an authorisation id
 ]
 
 
